@@ -17,7 +17,7 @@ pub struct Case {
 
 fn enum_len(tier: Tier) -> u32 {
     match tier {
-        Tier::Quick => 5,
+        Tier::Quick => 6,
         Tier::Thorough => 7,
     }
 }
@@ -103,12 +103,12 @@ impl PropImpl for C06 {
         "C06"
     }
     fn rule(&self) -> String {
-        "cases are texts: (E) every string of length <= L over the 14 class representatives of C01 (L=5 quick, 7 thorough), random strings, mutated documents, and renderings of well-formed \
+        "cases are texts: (E) every string of length <= L over the 14 class representatives of C01 (L=6 quick, 7 thorough), random strings, mutated documents, and renderings of well-formed \
          documents (for which both readers must accept and report the generator's model). Non-trivial: both readers accept and the text has a continuation line, a comment or >= 2 paragraphs \
          (well-formed renderings: by C03's rule). Distinct by text hash.".into()
     }
     fn budget(&self, tier: Tier) -> Budget {
-        Budget { cases_per_lane: if tier == Tier::Quick { 4000 } else { 100_000 }, tape_max: 600, cpu_s: 10 }
+        Budget { cases_per_lane: if tier == Tier::Quick { 20000 } else { 100_000 }, tape_max: 600, cpu_s: 10 }
     }
     fn spaces(&self, tier: Tier) -> Vec<Space> {
         let l = enum_len(tier);
@@ -124,7 +124,7 @@ impl PropImpl for C06 {
         match t.below(4) {
             0 => {
                 let text = text::weighted_text(t, c01::WEIGHTED, 300);
-                ctx.dup_of_enum = text::in_space(c01::ALPHABET, 5, &text);
+                ctx.dup_of_enum = text::in_space(c01::ALPHABET, 6, &text);
                 Case { text, model: None, origin: "random" }
             }
             1 => {
